@@ -115,7 +115,7 @@ def run(pid, tier):
     cov = dict(repo_test_events=rt["events"], states=mc["distinct"] + live.get("distinct", 0), transitions=mc["generated"] + live.get("generated", 0), depth=mc.get("depth"),
                action_coverage=coverage_summary(mc["out"]), liveness_checked="AlwaysResolves under WF(SolveStep)",
                traces_validated_against_impl=hist, evaluations=steps, distinct_nontrivial=hist,
-               rule="one trace = one history of a real FXRates object (construction then up to 12 update / refused-update / set_ad_order operations), validated step by step; generated family = every quote sequence of the model (all bases, consistent and mixed settlement) with seeded rates spanning 1e-3..1e3, random family = chains, stars, caterpillars and random trees on 2..12 currencies, random orientation / order / base, 20% of quotes supplied as dual numbers with their own variables, plus degenerate sets",
+               rule="one trace = one history of a real FXRates object (construction then up to 12 update / refused-update / set_ad_order operations), validated step by step; generated family = every quote sequence of the model (all bases, consistent and mixed settlement) with seeded rates spanning 1e-3..1e3, random family = chains, stars, caterpillars and random trees on 2..12 currencies, random orientation / order / base, 20% of quotes supplied as dual numbers with their own variables, plus degenerate sets; one re-quote in four repeats the present value and one in four changes the kind of the quote (plain number <-> first-order number on the pair's variable with a zero or non-unit sensitivity)",
                exhaustive=False, binding_demo=bind, samples=sample)
     assumptions = ["rates are compared to 1e-9 relative (+1e-12) against products recomputed by TLC in IEEE double arithmetic (FP.java supplies + - * / only)",
                    "bit-identity of values across derivative orders is not demanded (reciprocals are powf(x,-1), 1 ulp differences observed); quoted pairs and the diagonal are compared bit for bit",
